@@ -160,11 +160,18 @@ type Path struct {
 
 	extra      map[string]interface{}
 	panicTrace string
+	ranges     map[int32]*rng
+	rangeHits  int64
 }
 
 type Worker struct {
-	id     int
-	solver *Solver
+	id        int
+	solver    *Solver
+	base      *baseState
+	baseProg  *Program
+	models    []Model
+	modelNext int
+	cacheHits int64
 }
 
 func (p *Path) setModel(m Model) {
@@ -182,10 +189,10 @@ func (p *Path) pushLit(t *Term) {
 	if !p.pcset[t.id] {
 		p.pcset[t.id] = true
 		p.pc = append(p.pc, t)
+		p.learn(t)
 		// split conjunctions so that their parts are known literals too
 		if t.op == OpAnd {
-			p.pcset[t.a.id] = true
-			p.pcset[t.b.id] = true
+			p.noteConj(t)
 		}
 	}
 }
@@ -205,7 +212,24 @@ func (p *Path) known(c *Term) (val, ok bool) {
 	if p.pcset[mkNot(c).id] {
 		return false, true
 	}
+	if v, ok := p.byRange(c); ok {
+		p.rangeHits++
+		return v, true
+	}
 	return false, false
+}
+
+// noteConj records the conjuncts of a conjunction that holds.
+func (p *Path) noteConj(t *Term) {
+	for _, x := range []*Term{t.a, t.b} {
+		if !p.pcset[x.id] {
+			p.pcset[x.id] = true
+			p.learn(x)
+			if x.op == OpAnd {
+				p.noteConj(x)
+			}
+		}
+	}
 }
 
 func (p *Path) check(extra *Term, wantModel, assertion bool) (string, Model) {
@@ -215,7 +239,49 @@ func (p *Path) check(extra *Term, wantModel, assertion bool) (string, Model) {
 		lits = append(lits, extra)
 		p.noteVars(extra)
 	}
-	return p.w.solver.Check(lits, p.vars, wantModel, assertion)
+	// a cached model of this worker that satisfies every literal is a witness of satisfiability
+	if m := p.w.cachedModel(lits); m != nil {
+		p.w.cacheHits++
+		return "sat", m
+	}
+	res, m := p.w.solver.Check(lits, p.vars, wantModel, assertion)
+	if res == "sat" && m != nil {
+		p.w.remember(m)
+	}
+	return res, m
+}
+
+const modelCacheSize = 24
+
+func (w *Worker) remember(m Model) {
+	if len(w.models) < modelCacheSize {
+		w.models = append(w.models, m)
+		return
+	}
+	w.models[w.modelNext%modelCacheSize] = m
+	w.modelNext++
+}
+
+func (w *Worker) cachedModel(lits []*Term) Model {
+	for k := len(w.models) - 1; k >= 0; k-- {
+		m := w.models[k]
+		ev := newEvaluator(m)
+		ok := true
+		for i := len(lits) - 1; i >= 0; i-- {
+			if ev.eval(lits[i]) == 0 {
+				ok = false
+				break
+			}
+		}
+		if ok {
+			c := make(Model, len(m))
+			for a, b := range m {
+				c[a] = b
+			}
+			return c
+		}
+	}
+	return nil
 }
 
 // decide resolves a symbolic branch condition.
